@@ -24,6 +24,10 @@ pub trait Lock {
         T: 'a;
     type SubscriberState<S>;
 
+    /// The number of strong references to the shared state that one
+    /// `Subscriber` holds.
+    const SUBSCRIBER_REFS: usize;
+
     fn new_rwlock<T>(value: T) -> Self::RwLock<T>;
     fn read_noblock<T>(lock: &Self::RwLock<T>) -> Self::RwLockReadGuard<'_, T>;
 
@@ -68,6 +72,8 @@ impl Lock for SyncLock {
         T: 'a;
     type SubscriberState<S> = readlock::SharedReadLock<ObservableState<S>>;
 
+    const SUBSCRIBER_REFS: usize = 1;
+
     fn new_rwlock<T>(value: T) -> Self::RwLock<T> {
         Self::RwLock::new(value)
     }
@@ -108,6 +114,10 @@ impl Lock for AsyncLock {
     where
         T: 'a;
     type SubscriberState<S> = crate::subscriber::async_lock::AsyncSubscriberState<S>;
+
+    // The read lock itself, plus the clone inside the reusable lock-acquisition
+    // future.
+    const SUBSCRIBER_REFS: usize = 2;
 
     fn new_rwlock<T>(value: T) -> Self::RwLock<T> {
         Self::RwLock::new(value)
